@@ -12,6 +12,7 @@ let () =
     | "c04" -> Fam_print.c04
     | "c08" -> Fam_print.c08
     | "c13" -> Fam_print.c13
+    | "c15" -> Fam_unordered.run
     | _ -> prerr_endline ("unknown family " ^ fam); exit 2
   in
   let out = Buffer.create (1 lsl 16) in
